@@ -23,6 +23,8 @@ pub fn pool(tier: &str) -> Vec<Term> {
   v.extend(trees::raw_leaves(trees::TEXTS_FULL));
   v.extend(trees::orig_leaves(trees::TEXTS_FULL));
   v.push(Term::RawBuf(vec![0xff, b'a']));
+  v.push(Term::RawBuf(vec![b'a', 0x80, 0xc3, b'\n']));
+  v.push(Term::cached(Term::concat(vec![Term::RawBuf(vec![0xfe]), Term::raw("x")])));
   v.push(Term::RawBufS(vec![0xff, b'a']));
   v.push(Term::RawBufS(vec![]));
   let sms = trees::sms_leaves(&["ab\n", "a\nb"], 2, &[None, Some(K_A), Some(K_B)]);
@@ -59,6 +61,9 @@ pub fn pool(tier: &str) -> Vec<Term> {
       v.push(Term::replace(Term::orig("abcdef\n", "p.js"), perm.iter().map(|&i| base[i].clone()).collect()));
     }
   }
+  // a ReplaceSource over a ConcatSource, followed by a sibling
+  v.push(Term::concat(vec![Term::replace(Term::concat(vec![o("a;b")]), vec![Repl::new(3, 4, "X")]), o("a\nb")]));
+  v.push(Term::concat(vec![Term::replace(Term::concat(vec![Term::raw("ab"), o("a")]), vec![Repl::new(1, 5, "Y")]), Term::raw("cd"), o("a;b")]));
   // children without text that still carry map information
   v.push(Term::concat(vec![o("a"), Term::orig("", "e.js")]));
   v.push(Term::concat(vec![Term::orig("", "e.js"), o("a;b"), Term::raw("")]));
@@ -451,15 +456,20 @@ pub fn edits(t: &Term) -> Vec<(String, Term)> {
       out.push(("raw.kind_string_to_buffer".into(), Term::RawBuf(s.as_bytes().to_vec())));
     }
     Term::RawStr(s) => out.extend(edit_text(s).into_iter().map(|(k, x)| (format!("rawstr.{k}"), Term::RawStr(x)))),
-    Term::RawBuf(b) => {
+    Term::RawBuf(b) | Term::RawBufS(b) => {
+      let (tag, mk): (&str, fn(Vec<u8>) -> Term) = if matches!(t, Term::RawBuf(_)) { ("rawbuf", Term::RawBuf) } else { ("rawbufs", Term::RawBufS) };
       let mut x = b.clone();
       x.push(b'x');
-      out.push(("rawbuf.append".into(), Term::RawBuf(x)));
-    }
-    Term::RawBufS(b) => {
+      out.push((format!("{tag}.append"), mk(x)));
       let mut x = b.clone();
-      x.push(b'x');
-      out.push(("rawbufs.append".into(), Term::RawBufS(x)));
+      x.push(0xfe);
+      out.push((format!("{tag}.append_invalid_byte"), mk(x)));
+      // every byte changed to a neighbouring value (an invalid byte stays invalid: same lossy text, other bytes)
+      for i in 0..b.len() {
+        let mut x = b.clone();
+        x[i] = if x[i] >= 0x80 { x[i] ^ 1 } else { x[i].wrapping_add(1) };
+        out.push((format!("{tag}.change_byte_{i}"), mk(x)));
+      }
     }
     Term::Orig(s, f) => {
       out.extend(edit_text(s).into_iter().map(|(k, x)| (format!("orig.{k}"), Term::Orig(x, f.clone()))));
@@ -531,6 +541,20 @@ pub fn edits(t: &Term) -> Vec<(String, Term)> {
         let mut c = children.clone();
         c.swap(0, 1);
         out.push(("concat.swap_children".into(), mk(c)));
+      }
+      // regrouping across a ReplaceSource: the sibling that follows Replace(Concat[..], r) moves
+      // into that inner ConcatSource (the replacements then apply to a different inner text)
+      for i in 0..children.len().saturating_sub(1) {
+        if let Term::Replace(inner, repls) = &children[i] {
+          if let Term::Concat { children: ic, typed, add } = &**inner {
+            let mut ic2 = ic.clone();
+            ic2.push(children[i + 1].clone());
+            let mut c = children.clone();
+            c[i] = Term::Replace(Box::new(Term::Concat { children: ic2, typed: *typed, add: *add }), repls.clone());
+            c.remove(i + 1);
+            out.push((format!("concat.move_sibling_{}_into_inner_concat_of_replace", i + 1), mk(c)));
+          }
+        }
       }
     }
     Term::Replace(inner, repls) => {
@@ -617,7 +641,7 @@ pub fn c20_pair(ctx: &mut Ctx, t: &Term, e: &Term, kind: &str) {
       ctx.violation(
         "observably_different_same_hash",
         kind.to_string(),
-        None,
+        crate::findings::classify_hash_collision(kind),
         case,
         t.size(),
         format!("edit {kind} changes {what} but the hashes agree (sip {:x}/{:x}, fx {:x}/{:x})", ha.0, hb.0, ha.1, hb.1),
